@@ -311,8 +311,10 @@ def apalache_counting(ctx):
     done = 0
     for name, args in obligations:
         try:
+            os.makedirs(os.path.join(out, "jtmp"), exist_ok=True)       # SANY's temporary directories stay out of /tmp
             p = subprocess.run(["apalache-mc", "check"] + args + ["--out-dir=" + out, "WriterCount.tla"], cwd=os.path.join(core.VERIF, "apalache"),
-                               stdout=subprocess.PIPE, stderr=subprocess.STDOUT, text=True, timeout=600)
+                               stdout=subprocess.PIPE, stderr=subprocess.STDOUT, text=True, timeout=600,
+                               env=dict(os.environ, JAVA_IO_TMPDIR=os.path.join(out, "jtmp"), TMPDIR=os.path.join(out, "jtmp")))
         except subprocess.TimeoutExpired:
             ctx.machinery.append("apalache obligation %s timed out" % name)
             continue
